@@ -1,5 +1,6 @@
 import H2T.Lemmas.FitsTable
 import H2T.Lemmas.ShrinkFloor
+import H2T.Lemmas.ColumnEdges
 
 /-! # C06 — table cells stay in their columns; columns with text get space
 
@@ -74,5 +75,42 @@ theorem column_with_text_gets_space (cfg : Cfg) (width : Nat) (cols : List SizeE
 
 /-! non-vacuity: three columns of 10 at width 12 are taken down to 3+3+4 (+2 separators = 12) -/
 example : (shrinkLoop 12 [{ minW := 1 }, { minW := 1 }, { minW := 1 }] 40 [10, 10, 10]).toOption = some [3, 3, 4] := by decide
+
+/-! ## column boundaries are the same in every row -/
+
+/-- the x position of the bar after column `k − 1` (for `0 < k < n`): the widths of the first `k` columns and the `k − 1`
+    bars between them — a function of the column widths alone -/
+def colEdge (ws : List Nat) (k : Nat) : Nat := (ws.take k).sum + k - 1
+
+/-- **the vertical bars of a row stand at column boundaries**: in a side-by-side table whose columns all have width, a
+    row whose cells tile the columns gets its bars (`barPositions` of the cells' line sets — the positions where
+    `row_line_shape` puts the separators and `bars_join_the_rules` the junctions) only at `colEdge ws k`, `0 < k < n`.
+    These positions do not depend on the row, so column boundaries are identical in every row; a cell spanning several
+    columns simply omits the bars inside its span. -/
+theorem row_bars_at_column_boundaries (cfg : Cfg) (d : Deco) (hov : cfg.overflow = false) (ws : List Nat) (hpos : ∀ x ∈ ws, 0 < x)
+    (ann ann2 : Tag) (cells : List Op) (links l2 : List (List Ch)) (subs : List SubR) (sets : List (Nat × List RLine))
+    (hwf : wfCells 0 cells = true) (ht : tiles ws.length 0 cells = true)
+    (he : runCells SubR.widthMinus cfg d ws false ann links cells = .ok (l2, subs))
+    (hs : colSets ann2 subs = .ok sets) :
+    ∀ x ∈ barPositions 0 sets, ∃ k, 0 < k ∧ k < ws.length ∧ x = colEdge ws k := by
+  intro x hx
+  obtain ⟨c1, _, _⟩ := runCells_fitsT SubR.widthMinus cfg d (widthMinus_contract cfg hov) hov cells ws false ann links 0 l2 subs hwf he
+  have hw := runCells_widths cfg d hov ws hpos ann cells links 0 l2 subs hwf ht he
+  obtain ⟨_, hm⟩ := colSets_exact ann2 subs sets c1 hs
+  rw [barPositions_widths, hm, hw] at hx
+  obtain ⟨k, k1, k2, k3⟩ := bars_at_edges ws cells 0 ht x (by simpa using hx)
+  exact ⟨k, k1, k2, by unfold colEdge; omega⟩
+
+/-- …and the cells' renderers are exactly as wide as the columns they span plus the bars inside the span -/
+theorem cell_width_is_its_columns (cfg : Cfg) (d : Deco) (hov : cfg.overflow = false) (ws : List Nat) (hpos : ∀ x ∈ ws, 0 < x)
+    (ann : Tag) (cells : List Op) (links l2 : List (List Ch)) (subs : List SubR)
+    (hwf : wfCells 0 cells = true) (ht : tiles ws.length 0 cells = true)
+    (he : runCells SubR.widthMinus cfg d ws false ann links cells = .ok (l2, subs)) :
+    subs.map (·.width) = cellWidths ws cells :=
+  runCells_widths cfg d hov ws hpos ann cells links 0 l2 subs hwf ht he
+
+/-! non-vacuity: columns 3,4,5 — a row `[span 2, span 1]` has its only bar at x = 8 = colEdge 2 -/
+example : barsOfWidths 0 (cellWidths [3, 4, 5] [.cell 0 2 [], .cell 2 1 []]) = [colEdge [3, 4, 5] 2] := by decide
+example : barsOfWidths 0 (cellWidths [3, 4, 5] [.cell 0 1 [], .cell 1 1 [], .cell 2 1 []]) = [colEdge [3, 4, 5] 1, colEdge [3, 4, 5] 2] := by decide
 
 end H2T.C06
